@@ -14,7 +14,8 @@ LEVEL = 'exploration'
 RULE = ('One real instance with 1-3 AsyncServiceBrowsers (single- and multi-type over three unrelated types, created at the start '
         'or later when no expired-but-unpurged pointer of their types is cached) receives generated histories of response '
         'datagrams (PTR records owned by exactly the browsed type: new, refreshed, re-cased across datagrams, goodbye, cache-flush, '
-        'repeated in one datagram, TTL in {0,1,2,1124,1125,4500}, plus SRV/TXT/A records of the instances) and clock steps from 0 ms '
+        'repeated in one datagram, TTL in {0,1,2,1124,1125,4500}, plus SRV/TXT/A records of the instances, incl. datagrams that mix a '
+        'pointer goodbye/announcement with changed SRV/TXT/A data of the same instance in any order) and clock steps from 0 ms '
         'to hours (expiry is discovered by the engine\'s own 10 s purge). Oracle: per (browser,type,instance) callbacks match '
         '(Added Removed)* Added?; after every op the live set equals the PTR aliases held in the real cache (case-insensitively); '
         'inside add_service the triggering datagram\'s records are already cached. Non-trivial = history with a Removed followed by '
@@ -96,12 +97,41 @@ def churn(draw):
     return ops
 
 
+@st.composite
+def mixed(draw):
+    """One datagram about one instance that mixes pointer changes with changed SRV/TXT/A data in any order (so one batch of
+    callbacks holds several state changes of the same instance), usually after that instance was announced."""
+    ti, ii, sp = draw(TI), draw(II), draw(st.integers(0, 1))
+    h = draw(st.integers(0, 1))
+    parts = [
+        {'k': 'PTR', 'type': ti, 'inst': ii, 'sp': sp, 'ttl': draw(st.sampled_from([0, 0, 4500])), 'flush': False},
+        {'k': 'SRV', 'type': ti, 'inst': ii, 'sp': sp, 'ttl': 120, 'flush': True, 'host': h, 'port': draw(st.sampled_from([80, 81]))},
+        {'k': 'TXT', 'type': ti, 'inst': ii, 'sp': sp, 'ttl': 4500, 'flush': True, 'txt': draw(st.sampled_from(['00', '0161']))},
+        {'k': 'A', 'host': h, 'ttl': 120, 'flush': True, 'addr': draw(st.sampled_from(['0a000005', '0a000006']))}]
+    keep = draw(st.lists(st.integers(0, 3), min_size=2, max_size=4, unique=True))
+    if 0 not in keep:
+        keep[draw(st.integers(0, len(keep) - 1))] = 0
+    recs = [parts[i] for i in draw(st.permutations(sorted(set(keep))))]
+    ops = []
+    if draw(st.integers(0, 2)) > 0:
+        ops += [['resp', [
+            {'k': 'PTR', 'type': ti, 'inst': ii, 'sp': sp, 'ttl': 4500, 'flush': False},
+            {'k': 'SRV', 'type': ti, 'inst': ii, 'sp': sp, 'ttl': 120, 'flush': True, 'host': h, 'port': 80},
+            {'k': 'TXT', 'type': ti, 'inst': ii, 'sp': sp, 'ttl': 4500, 'flush': True, 'txt': '00'},
+            {'k': 'A', 'host': h, 'ttl': 120, 'flush': True, 'addr': '0a000005'}]],
+            ['tick', draw(st.sampled_from([0, 1, 1500, 5000]))]]
+    ops.append(['resp', recs])
+    if draw(st.booleans()):
+        ops += [['tick', draw(st.sampled_from([0, 1, 1500]))], ['resp', [{'k': 'PTR', 'type': ti, 'inst': ii, 'sp': sp, 'ttl': 4500, 'flush': False}]]]
+    return ops
+
+
 def strategy(tier: str):
     return st.fixed_dictionaries({
         'browsers': st.lists(st.lists(st.integers(0, 2), min_size=1, max_size=3, unique=True).map(sorted), min_size=1, max_size=2),
         'ops': st.lists(st.one_of(resp_op().map(lambda o: [o]), resp_op().map(lambda o: [o]), announce_op().map(lambda o: [o]),
                                   announce_op().map(lambda o: [o]), tick_op.map(lambda o: [o]), tick_op.map(lambda o: [o]),
-                                  browser_op.map(lambda o: [o]), churn()),
+                                  browser_op.map(lambda o: [o]), churn(), mixed()),
                         min_size=1, max_size=14 if tier == 'quick' else 28).map(lambda cs: [o for c in cs for o in c]),
     })
 
